@@ -18,6 +18,7 @@ def commands : List (String × (String → String)) := [
   ("trace", trace),
   ("legal", legal),
   ("nest", nest),
+  ("tables", tables),
   ("json", json),
   ("promela", promela),
   ("lua", lua)
